@@ -3,6 +3,8 @@ CONSTANTS
   MaxD = 4
   PairD = 3
   PairLeaves <- QuickPairLeaves
+  FeeVars = {"eq", "more", "less"}
+  GasVars = {"eq", "more", "less"}
   TripleElemSet <- QuickTripleElems
 INVARIANTS
   Inv_WellFormed
